@@ -77,8 +77,9 @@ def main():
         shutil.rmtree(wt, ignore_errors=True)
     dst = os.path.join(VERIF, "seeded", sid)
     os.makedirs(dst, exist_ok=True)
-    shutil.copy(os.path.join(cand, "patch.diff"), os.path.join(dst, "patch.diff"))
-    shutil.copy(os.path.join(cand, "demo_test.go"), os.path.join(dst, "demo_test.go"))
+    if os.path.abspath(cand) != os.path.abspath(dst):
+        shutil.copy(os.path.join(cand, "patch.diff"), os.path.join(dst, "patch.diff"))
+        shutil.copy(os.path.join(cand, "demo_test.go"), os.path.join(dst, "demo_test.go"))
     res["ran"] = "seedrun.py: fresh worktree of /repo HEAD, demo on clean tree, git apply, repository suite, demo x3, ./check <prop> --repo <worktree>"
     json.dump(res, open(os.path.join(dst, "meta.json"), "w"), indent=1)
     print(json.dumps({"seed": sid, "valid": res["validated"], "checks": {k: (v["caught"], v["exit"], v["wall_s"]) for k, v in res["checks"].items()}}))
